@@ -239,8 +239,10 @@ theorem C04_wrapper_words_are_first_pass (pass2 : List Entry → Nat → Option 
 aligner exists whose frame count equals the current `acmod->output_frame`; then the decoder state is unchanged and the
 answer is that aligner's object (whatever it holds — a half-built object if its `finish` had failed).  Consequences:
 right after a successful request the repeated call returns the identical object iff the hypothesis ended at the current
-frame (`T = output_frame`: final results); after `decoder_start_utt` or `decoder_end_utt` no request is answered by the
-shortcut; after the acoustic model moved to another frame the old object is not handed out. -/
+frame (`T = output_frame`: final results); after `decoder_start_utt`, `decoder_end_utt` or a call that replaced or
+re-initialised the search (`replaceSearch`: an accepted `decoder_set_fsg` / `_jsgf_string` / `_jsgf_file` /
+`_align_text`, `decoder_add_word` with `update`; D130) no request is answered by the shortcut; after the acoustic model
+moved to another frame the old object is not handed out. -/
 theorem C04_wrapper_reuse (pass2 : List Entry → Nat → Option Alignment) (d : Dec) (segs : Option (List FSeg)) :
     (∀ al, d.align = some al → al.frame = d.outFrame →
       request pass2 d segs = (.al al.serial true al.result, d)) ∧
@@ -248,6 +250,7 @@ theorem C04_wrapper_reuse (pass2 : List Entry → Nat → Option Alignment) (d :
       ∃ al, d.align = some al ∧ al.frame = d.outFrame ∧ ser = al.serial ∧ c = al.result ∧ d' = d) ∧
     (∀ ser c, (request pass2 (startUtt d) segs).1 ≠ .al ser true c) ∧
     (∀ ser c, (request pass2 (endUtt d) segs).1 ≠ .al ser true c) ∧
+    (∀ ser c, (request pass2 (replaceSearch d) segs).1 ≠ .al ser true c) ∧
     (∀ al of na, d.align = some al → al.frame ≠ of → ∀ ser c, (request pass2 (advance d of na) segs).1 ≠ .al ser true c) := by
   have key : ∀ (d : Dec) ser c d', request pass2 d segs = (.al ser true c, d') →
       ∃ al, d.align = some al ∧ al.frame = d.outFrame ∧ ser = al.serial ∧ c = al.result ∧ d' = d := by
@@ -268,7 +271,7 @@ theorem C04_wrapper_reuse (pass2 : List Entry → Nat → Option Alignment) (d :
       · rw [if_neg c1] at h
         obtain ⟨_, _, _, _, _, _, _, _, e, _⟩ := requestFresh_al pass2 d d' segs ser true c h
         cases e
-  refine ⟨?_, key d, ?_, ?_, ?_⟩
+  refine ⟨?_, key d, ?_, ?_, ?_, ?_⟩
   · intro al h1 h2
     unfold request
     rw [h1]
@@ -280,6 +283,9 @@ theorem C04_wrapper_reuse (pass2 : List Entry → Nat → Option Alignment) (d :
   · intro ser c h
     obtain ⟨al, h1, _⟩ := key (endUtt d) ser c (request pass2 (endUtt d) segs).2 (by rw [← h])
     simp [endUtt] at h1
+  · intro ser c h
+    obtain ⟨al, h1, _⟩ := key (replaceSearch d) ser c (request pass2 (replaceSearch d) segs).2 (by rw [← h])
+    simp [replaceSearch] at h1
   · intro al of na h1 h2 ser c h
     obtain ⟨al', h3, h4, _⟩ := key (advance d of na) ser c (request pass2 (advance d of na) segs).2 (by rw [← h])
     have e1 : (advance d of na).align = d.align := rfl
@@ -376,6 +382,25 @@ example :
     (∃ c, (request exPass2 d1 (some [⟨7, 0, 7⟩])).1 = .al 1 true c) ∧
     (request exPass2 (advance (startUtt d1) 8 100) (some [⟨7, 0, 7⟩])).1 = .null := by
   refine ⟨⟨_, rfl⟩, ?_⟩
+  decide
+
+/-- **C04 wrapper, no alignment for a result that is gone.**  After the search was replaced or re-initialised the new
+search has no hypothesis until it has decoded something (`decoder_seg_iter` = NULL, `segs = none`): the request returns
+NULL and leaves no aligner behind — whatever aligner an earlier request had left (D130). -/
+theorem C04_wrapper_replaced_search_null (pass2 : List Entry → Nat → Option Alignment) (d : Dec) :
+    request pass2 (replaceSearch d) none = (.null, replaceSearch d) ∧ (replaceSearch d).align = none ∧
+    (replaceSearch d).outFrame = d.outFrame ∧ (replaceSearch d).nAlloc = d.nAlloc ∧ (replaceSearch d).serial = d.serial :=
+  ⟨rfl, rfl, rfl, rfl, rfl⟩
+
+/-- the hazard the D130 repair removes: the aligner of the final result over 8 frames would answer a request made after
+the grammar was switched (no hypothesis: `segs = none`) with the old words; after `replaceSearch` the answer is NULL,
+and a grammar switch that was REFUSED (no event) keeps the old object valid -/
+example :
+    let d1 := (request exPass2 { outFrame := 8, nAlloc := 100 } (some [⟨0, 0, 4⟩, ⟨1, 5, 7⟩])).2
+    (∃ c, (request exPass2 d1 none).1 = .al 1 true c) ∧
+    (request exPass2 (replaceSearch d1) none).1 = .null ∧
+    (∃ c, (request exPass2 d1 (some [⟨0, 0, 4⟩, ⟨1, 5, 7⟩])).1 = .al 1 true c) := by
+  refine ⟨⟨_, rfl⟩, ?_, ⟨_, rfl⟩⟩
   decide
 
 example : replay 11 7 11 0 [] = (11, [0, 1, 2, 3, 4, 5, 6, 7]) := by decide
